@@ -109,4 +109,44 @@ example : ∃ p ∈ cparams ++ dparams, p.name = "ZSTD_c_windowLog" ∧ setVal p
   refine ⟨cparams[1], by decide, by decide, by decide, by decide⟩
 example : setParam cparams true (startFrame (fresh cparams)) 1 20 = .error .stage := by rfl
 
+
+/-! ### struct-level setters (ZSTD_CCtx_setCParams / setFParams / setParams): all or nothing -/
+
+/-- a parameter structure with any compression field outside its bounds is refused as a whole by ZSTD_CCtx_setParams - before the
+frame parameters are touched: the model returns no new state at all (the driver keeps the old one, and the correspondence compares
+the implementation's full parameter dump after the refused call with it) -/
+theorem setParams_bad_cparams_rejected (ps : List PInfo) (s : Ctx) (cp fp : List Int) (h : checkCParamsStruct ps cp = false) :
+    setParamsAll ps s cp fp = .error .outOfBound := by
+  unfold setParamsAll; simp [h]
+
+theorem setCParams_bad_rejected (ps : List PInfo) (s : Ctx) (cp : List Int) (h : checkCParamsStruct ps cp = false) :
+    setCParams ps s cp = .error .outOfBound := by
+  unfold setCParams; simp [h]
+
+/-- whatever a sequence of single-parameter sets does, it never changes the frame-in-progress flag or the dictionary flag -/
+theorem setSeq_keeps_stage (ps : List PInfo) (kvs : List (Nat × Int)) (s s' : Ctx) (h : setSeq ps s kvs = .ok s') :
+    s'.started = s.started ∧ s'.hasDict = s.hasDict := by
+  induction kvs generalizing s with
+  | nil => simp [setSeq] at h; cases h; exact ⟨rfl, rfl⟩
+  | cons kv rest ih =>
+    rcases kv with ⟨id, v⟩
+    unfold setSeq at h
+    split at h
+    · cases h
+    · rename_i k hk
+      split at h
+      · cases h
+      · rename_i s1 h1
+        have := ih s1 h
+        unfold setParam at h1
+        split at h1
+        · cases h1
+        · split at h1
+          · cases h1
+          · split at h1
+            · cases h1
+            · cases h1; exact this
+
+example : checkCParamsStruct cparams [0, 10, 10, 1, 4, 1, 1] = false ∧ checkCParamsStruct cparams [17, 10, 10, 1, 4, 1, 1] = true := by decide
+
 end ZstdVerif.Props.C16
